@@ -9,6 +9,7 @@ func vNondetBytes(name string, n int) []byte { return make([]byte, n) }
 func vAssume(b bool)                         {}
 func vObserve(name string, v interface{})    {}
 func vFreeze(v interface{})                  {}
+func vFlag(name string) bool { return false }
 func vMark()                                 {}
 
 func vLimbs(name string) [4]uint64 {
